@@ -331,7 +331,7 @@ def run_obligation(ob: Obligation, seed=0):
                     what = "postcondition"
                 goal = p.pc + [as_z3(~cond)]
                 rec["smt_assertions"] = max(rec["smt_assertions"], len(goal) + len(ctx.side) + len(ctx.assume))
-                r, model = ctx.check(goal, timeout_ms=ob.timeout_ms)
+                r, model = ctx.check(goal, timeout_ms=ob.timeout_ms, cross=True)
                 if r == "unsat":
                     continue
                 all_ok = False
@@ -369,6 +369,7 @@ def run_obligation(ob: Obligation, seed=0):
             rec["queries"] = ctx.queries
             rec["solver_s"] = round(ctx.solver_s, 4)
             rec["stubs"] = sorted(ctx.stubs)
+            rec["cross_solver"] = getattr(ctx, "xstats", None)
             rec["events"] = [list(map(str, e)) for e in ctx.events[:20]]
             cand_vals = None
             if cand is not None:
